@@ -69,6 +69,8 @@ type World struct {
 	// AfterBubble holds checks that need the real clock (a search with a wall-clock timeout): they run after the
 	// synctest bubble has ended, where time.After is real, and may still call Violate and Probe
 	AfterBubble []func()
+	meet        map[int]int
+	meetQ       simrt.WaitQ
 }
 
 var runRoot string
@@ -291,6 +293,26 @@ func (w *World) StartOperator(max, delay int) {
 			w.OperatorReload()
 		}
 	})
+}
+
+// Meet is a rendezvous: it returns when `parties` threads have called it with the same id, so that the requests they
+// issue next enter the server at the same moment and race there.  A partner that never comes (it quit, or its op was
+// removed by minimisation) is waited for 2 simulated seconds only.
+func (w *World) Meet(id, parties int) {
+	if w.meet == nil {
+		w.meet = map[int]int{}
+	}
+	w.meet[id]++
+	if w.meet[id] >= parties {
+		simrt.Wake(&w.meetQ)
+		w.Probe("rendezvous_met")
+		return
+	}
+	for w.meet[id] < parties {
+		if !simrt.ParkTimeout(&w.meetQ, 2*time.Second) {
+			return
+		}
+	}
 }
 
 // ReloadDuring makes the operator reload the configuration k scheduler steps from now, i.e. while the request the
